@@ -21,9 +21,15 @@ CHECKS = {
  'C05': dict(cat=MC, technique='TLA+ HCM specification with abstract notch law (3 exact integer laws) as the independent implementation; TLC exhaustive; all recorder columns and strain lists of every state compared exactly with FKMNonlinearDetector; batch-vs-alone and negation relations; recorded runs validated by Trace_HCM.tla',
    text='The specification is an independent implementation of the HCM procedure (cases a-c, Memory 1-3, running extremes) parametrised by the law; for three exact laws every load sequence of the bounded instance is replayed with the same law injected and every column compared exactly; batches of proportional points (incl. arbitrary node ids / load-step labels) are compared with each point alone.',
    note='laws are exact integer functions injected through the constructor; real laws are exercised via C10; raw chunked process() on multi-point input is outside the property (observation O1 in DESIGN)', ref='5 C05'),
+ 'C06': dict(cat=MC, technique='TLA+ transcription of the extended-Neuber implicit functions and the Ramberg-Osgood/Masing relations in exact rationals (spec/notch/Neuber.tla): for n\' = 1/m TLC constructs, per lattice point, the material for which a chosen stress is the EXACT root and proves root/oddness/Masing doubling/bracket/monotonicity; every state replayed into ExtendedNeuber; recorded load walks of both laws (FKM materials) validated by the TLC trace specification Trace_Notch.tla',
+   text='For hardening exponents 1/m the defining equation is polynomial, so the specification can construct material/load pairs whose exact root is a known rational: TLC checks the coded implicit function vanishes there (primary, mirrored, Masing-doubled) and that the root is bracketed and strictly increasing, and each state is an implementation test with an exact expectation for stress, secondary branch, strain and the backward functions at both tolerances. For realistic (non-rational) exponents and the Seeger-Beste law the same clauses are decided by a trace specification on recorded ascending load walks (all observables logged as integers; the root clause uses the harness\' own transcription of eq. 2.5-45/46 and 2.8-42/43).',
+   note='exact part only for n\' = 1/m, m = 2..4; the walk part trusts the harness transcription of the equations and reads "within the requested tolerance" as 2 (tol + rtol |stress|); calls on which the solver raises are counted, not failed; defect found this way (Seeger-Beste cancellation near stress = load) repaired in /repo (fix: dd03431)', ref='5 C06'),
+ 'C15': dict(cat=MC, technique='TLA+ lattice of load/strength medians and Pythagorean scatter pairs on which the probit of the analytic failure probability is an exact rational (spec/failprob); TLC proves the order / mirror / limit laws; every state evaluated through FailureProbability (simple, log-normal, arbitrary-density variants)',
+   text='On scatter pairs (s_L, s_S) that are legs of Pythagorean triples sqrt(s_L^2 + s_S^2) is an integer, so (log10 L - log10 S)/sqrt(...) is a rational number TLC can compute and order exactly: monotone in both medians, ratio-only, mirror = complement, flatter with more scatter, deterministic load as the member with s_L = 0. Each lattice state is an implementation test whose expected value is Phi of that exact probit, for pf_simple_load, pf_norm_load (also with explicit limits and vanishing load scatter) and pf_arbitrary_load on sampled log-normal densities at two resolutions.',
+   note='the reference value is scipy.stats.norm.cdf of the exact probit; agreement to 1e-9 + 1e-5 of the smaller tail; [0, 1] up to rounding (1e-12)', ref='5 C15'),
  'C07': dict(cat=MC, technique='TLA+ transcription of the class selection of Binned (searchsorted-left, +1 row, range guard; scalar, one-table and per-point paths) vs the definition "least class whose upper edge is >= |load|"; TLC enumerates the whole lattice; every state looked up in real Binned objects',
    text='The case analysis is finite per (bins, branch); TLC proves coded class choice = definition (and the consequences: error iff above max, never under-estimates, monotone, < 1 class) on the lattice of loads on/between/beyond class edges, and each lattice state is one implementation test: exact laws compared exactly, real laws against the wrapped law evaluated on the table edges; per-point tables vs each point alone; look-ups must not depend on call history.',
-   note='edges as doubles taken from the table; solver accuracy of the wrapped laws is C06 (not claimed); known finding C07-onebin (number_of_bins=1 raises)', ref='5 C07'),
+   note='edges as doubles taken from the table; solver accuracy of the wrapped laws is C06; known finding C07-onebin (number_of_bins=1 raises)', ref='5 C07'),
  'C08': dict(cat=MC, technique='TLA+ transcription of WoehlerCurve (transform_to_failure_probability, _make_k, basquin_cycles/_load, Miner variants) on the log2 exponent lattice; TLC checks the algebraic laws on every lattice state; each state evaluated through the real accessor',
    text='On powers of two with failure probabilities 10/50/90 % the whole algebra is exact integer arithmetic on exponents, so TLC decides inverse/monotone/knee/slope/Miner/scatter-ratio/group-law/identity on the specification for the full lattice, and every lattice state is an implementation test with the exact expected value (scalar, integer-typed, array, Series and DataFrame x Series broadcast forms; non-mutation of source and signal).',
    note='lattice restriction (powers of two, three probabilities, slopes k and k/2); rel 1e-9 because the code shifts with 10**x', ref='5 C08'),
@@ -63,8 +69,6 @@ CHECKS = {
 }
 PENDING = 'check not built yet in this round (planned, see DESIGN.md section 5)'
 NA = {
- 'C06': 'pure real-analysis statement about Newton/secant roots of transcendental equations: no state, no case structure, no exactly representable sub-lattice for TLC (DESIGN.md section 6)',
- 'C15': 'compares adaptive quadrature with the normal CDF over real parameters: nothing discrete to model or enumerate exactly (DESIGN.md section 6)',
 }
 
 def main():
